@@ -1,6 +1,7 @@
     requires wf_partial(parsed),
     ensures
-        (parsed.major is None) ==> shape_ok(r, npm_caret(parsed)),
-        (parsed.major is Some && parsed.minor is None) ==> shape_ok(r, npm_caret(parsed)),
-        (parsed.major is Some && parsed.minor is Some && parsed.patch is None) ==> shape_ok(r, npm_caret(parsed)),
-        (parsed.major is Some && parsed.minor is Some && parsed.patch is Some) ==> shape_ok(r, npm_caret(parsed)),
+        xM(parsed) ==> shape_ok(r, npm_caret(parsed)),
+        !xM(parsed) && xm(parsed) && pM(parsed) == 0 ==> shape_ok(r, npm_caret(parsed)),
+        !xM(parsed) && xm(parsed) && pM(parsed) != 0 ==> shape_ok(r, npm_caret(parsed)),
+        !xm(parsed) && xp(parsed) ==> shape_ok(r, npm_caret(parsed)),
+        !xp(parsed) ==> shape_ok(r, npm_caret(parsed)),
